@@ -160,6 +160,11 @@ def check(case, ev):
     if any(len(by_id.get(i, ())) > 1 for i in nd_ids):
         ev.count("skipped_ambiguous_branch_sharing")
         return
+    # every non-default branch the spec defines must be a column (it is what carries the cost of leaving a default)
+    missing = sorted(nd_ids - set(ids))
+    if missing:
+        raise Violation(f"the non-default branch(es) {missing} of a defaulted Any/Xor are not columns of the configurator's polyhedron "
+                        f"(columns {ids}): leaving the default costs nothing")
     # default prio vector: -2 exactly on the non-default branches
     dpv = [int(x) for x in np.asarray(poly.default_prio_vector).tolist()]
     for i, w in zip(ids, dpv):
